@@ -48,6 +48,11 @@ func H_Policy() {
 		return
 	}
 	if err != nil {
+		if vParamInt("anyarg") == 1 {
+			// argument indices are unconstrained in this instance: a rejection is legitimate
+			vCover("cover.rejected_anyarg")
+			return
+		}
 		// every shape of this harness is free of the listed defects
 		vAssert(false, "C07.accept")
 		return
